@@ -257,14 +257,14 @@ where
             Some(CardType::SDHC) => start_block_idx.0,
             None => return Err(Error::CardNotFound),
         };
+        // The error bits of the card status stay set until they are read,
+        // and an earlier transfer may have left some behind (a multi-block
+        // read up to the last block sets OUT_OF_RANGE although nothing is
+        // wrong). Read them now, so that the check after the data blocks
+        // reports on this write only.
+        self.card_command(CMD13, 0)?;
+        self.read_byte()?;
         if blocks.len() == 1 {
-            // The error bits of the card status stay set until they are read,
-            // and an earlier transfer may have left some behind (a multi-block
-            // read up to the last block sets OUT_OF_RANGE although nothing is
-            // wrong). Read them now, so that the check after the data block
-            // reports on this write only.
-            self.card_command(CMD13, 0)?;
-            self.read_byte()?;
             // Start a single-block write - unless the card refuses the command:
             // a card that stays in its command state would take the data
             // block for a series of commands
@@ -277,12 +277,6 @@ where
             self.wait_not_busy(Delay::new_write())?;
             self.write_data(DATA_START_BLOCK, &blocks[0].contents)?;
             self.wait_not_busy(Delay::new_write())?;
-            if self.card_command(CMD13, 0)? != 0x00 {
-                return Err(Error::WriteError);
-            }
-            if self.read_byte()? != 0x00 {
-                return Err(Error::WriteError);
-            }
         } else {
             // > It is recommended using this command preceding CMD25, some of the cards will be faster for Multiple
             // > Write Blocks operation. Note that the host should send ACMD23 just before WRITE command if the host
@@ -321,6 +315,16 @@ where
             // write timeout, rather than leaving it to the next command.
             let _ = self.read_byte()?;
             self.wait_not_busy(Delay::new_write())?;
+        }
+        // Some errors (address out of range, write protection, ...) are only
+        // found while programming and only shown in the card status: the
+        // data-response token says "accepted" all the same. Ask for the status
+        // after a multi-block write just as after a single-block one.
+        if self.card_command(CMD13, 0)? != 0x00 {
+            return Err(Error::WriteError);
+        }
+        if self.read_byte()? != 0x00 {
+            return Err(Error::WriteError);
         }
         Ok(())
     }
